@@ -71,7 +71,7 @@ def istr(rng, lo=-2 ** 63, hi=2 ** 63 - 1):
     if edge(rng):
         return rng.choice(NUMBERS)
     if edge(rng):
-        return str(rng.choice([hi + 1, lo - 1, 2 ** 32, 2 ** 63, 2 ** 64, -1]))
+        return str(rng.choice([hi + 1, lo - 1, 2 ** 32, 2 ** 63, 2 ** 64, -1, "-0", "+" + str(hi), "-" + str(-lo if lo < 0 else 1)]))
     c = rng.below(10)
     if c <= 2:
         return rng.choice(["", "-0" if lo < 0 else "+0", "007"] + [str(v) for v in [lo, hi, lo + 1, hi - 1, 0, 1, 255, 65535] if lo <= v <= hi])
@@ -211,7 +211,9 @@ def gpointcloud(rng, prefixes):
             ch.append(node_fn())
     opt(lambda: gstring(rng, "guid"), 1 if rng.chance(5, 6) else 2)
     opt(lambda: E("originalGuids", [["type", "Vector"], ["allowHeterogeneousChildren", "0"]],
-                  [gstring(rng, "vectorChild") for _ in range(rng.below(4))]), 4)
+                  [gstring(rng, "vectorChild") if not rng.chance(1, 6) else
+                   E(rng.choice(["vectorChild", "vectorChild", "guid"]), [["type", rng.choice(TYPES)]], [T(sstr(rng))])
+                   for _ in range(rng.below(4))]), 4)
     opt(lambda: gstruct(rng, "cartesianBounds", ["xMinimum", "xMaximum", "yMinimum", "yMaximum", "zMinimum", "zMaximum"], gfloat))
     opt(lambda: gstruct(rng, "sphericalBounds", ["azimuthStart", "azimuthEnd", "elevationMinimum", "elevationMaximum", "rangeMinimum", "rangeMaximum"], gfloat), 3)
     opt(lambda: gstruct(rng, "indexBounds", ["rowMinimum", "rowMaximum", "columnMinimum", "columnMaximum", "returnMinimum", "returnMaximum"], gint), 3)
@@ -373,7 +375,26 @@ def foreign_subtree(rng, prefixes, root, local=None):
 
 def mutate(rng, root, prefixes):
     """applies one mutation in place; returns its name"""
-    k = rng.below(26)
+    k = rng.below(28)
+    if k >= 26:
+        n, p = pick_elem(rng, root, lambda n, p: p is not None and n[1] in ("points", "prototype", "dateTimeValue", "isAtomicClockReferenced", "vectorChild",
+                                                                           "jpegImage", "pngImage", "imageMask") and len(elements(n)) < 80)
+        if n is not None:
+            tw = clone(n)
+            for a in tw[2]:
+                if a[0] == "type":
+                    a[1] = rng.choice(TYPES)
+            if k == 27:
+                tw[2] = [a for a in tw[2] if a[0] != "type"]
+            for m in elements(tw):
+                if is_leaf(m) and m[3] and rng.chance(1, 2):
+                    m[3] = [T(rng.choice(NUMBERS + STRINGS))]
+                for a in m[2]:
+                    if a[0] in ("fileOffset", "recordCount", "length", "minimum", "maximum") and rng.chance(1, 2):
+                        a[1] = str(rng.below(1000))
+            i = p[3].index(n)
+            p[3].insert(i + (0 if rng.chance(3, 4) else 1), tw)
+        return "differently-typed-twin"
     if k == 0:
         n, p = pick_elem(rng, root, lambda n, p: p is not None)
         if n is not None:
